@@ -251,14 +251,91 @@ func isNilConst(v ssa.Value) bool {
 // pos+X is a data byte:  len(buf)-2 - z.pos - X >= 0.
 func peekFacts(b *ssa.BasicBlock, cr *cursorRoles, recv string) []Fact {
 	out := cr.normFacts(blockFacts(b), recv)
-	for _, at := range guardsAt(b) {
+	atoms := guardsAt(b)
+	out = append(out, sentinelFacts(atoms, cr, recv, nil, nil)...)
+	// the result of a helper of the cursor compared with a constant (switch z.runeLen(c, pos) { case 2: ... }): what the
+	// helper established on its way to returning that constant, look-ahead bytes included
+	for _, at := range atoms {
+		if at.op != token.EQL || at.call != nil {
+			continue
+		}
 		for _, pr := range [][2]ssa.Value{{at.x, at.y}, {at.y, at.x}} {
-			call, ok := stripConv(pr[0]).(*ssa.Call)
+			c, ri, ok := callOfValue(pr[0])
+			k, isK := pr[1].(*ssa.Const)
+			if !ok || !isK || !ssaIntConst(k) {
+				continue
+			}
+			out = append(out, helperResultSentinels(c, ri, k.Int64(), cr, recv)...)
+		}
+	}
+	// ... or left as the only constant the helper can still have returned (the default arm)
+	type key struct {
+		c  *ssa.Call
+		ri int
+	}
+	excl := map[key]map[int64]bool{}
+	var order []key
+	for _, at := range atoms {
+		if at.op != token.NEQ || at.call != nil {
+			continue
+		}
+		for _, pr := range [][2]ssa.Value{{at.x, at.y}, {at.y, at.x}} {
+			c, ri, ok := callOfValue(pr[0])
+			k, isK := pr[1].(*ssa.Const)
+			if ok && isK && ssaIntConst(k) {
+				kk := key{c, ri}
+				if excl[kk] == nil {
+					excl[kk] = map[int64]bool{}
+					order = append(order, kk)
+				}
+				excl[kk][k.Int64()] = true
+			}
+		}
+	}
+	for _, kk := range order {
+		ks, ok := constResultsAt(kk.c, kk.ri)
+		if !ok {
+			continue
+		}
+		var left []int64
+		for _, k := range ks {
+			if !excl[kk][k] {
+				left = append(left, k)
+			}
+		}
+		if len(left) == 1 {
+			out = append(out, helperResultSentinels(kk.c, kk.ri, left[0], cr, recv)...)
+		}
+	}
+	return out
+}
+
+// sentinelFacts: a byte known to be non-zero at offset X means pos+X is a data byte. With f/args given, the atoms
+// are those of helper f called with args: a parameter compared stands for the argument (c := z.Peek(pos); z.runeLen(c, pos)),
+// and the helper's own look-ahead offsets are expressed in the caller's terms.
+func sentinelFacts(atoms []condAtom, cr *cursorRoles, recv string, f *ssa.Function, args []ssa.Value) []Fact {
+	var out []Fact
+	for _, at := range atoms {
+		for _, pr := range [][2]ssa.Value{{at.x, at.y}, {at.y, at.x}} {
+			if pr[0] == nil || pr[1] == nil {
+				continue
+			}
+			v := stripConv(pr[0])
+			inCaller := f == nil
+			if p, isP := v.(*ssa.Parameter); isP && f != nil {
+				for i, q := range f.Params {
+					if q == p && i < len(args) {
+						v = stripConv(args[i])
+						inCaller = true
+					}
+				}
+			}
+			call, ok := v.(*ssa.Call)
 			if !ok {
 				continue
 			}
-			f := call.Call.StaticCallee()
-			if f == nil || f.Name() != "Peek" || len(call.Call.Args) != 2 {
+			g := call.Call.StaticCallee()
+			if g == nil || g.Name() != "Peek" || len(call.Call.Args) != 2 {
 				continue
 			}
 			k, isK := pr[1].(*ssa.Const)
@@ -281,10 +358,72 @@ func peekFacts(b *ssa.BasicBlock, cr *cursorRoles, recv string) []Fact {
 			case token.GTR:
 				nonzero = kv >= 0
 			}
-			if nonzero {
-				x := cr.normLin(linOf(call.Call.Args[1]), recv)
-				out = append(out, Fact{L: linAtom("len(z.buf)").add(linConst(2), -1).add(linAtom("z.pos"), -1).add(x, -1)})
+			if !nonzero {
+				continue
 			}
+			off := linOf(call.Call.Args[1])
+			if !inCaller {
+				var okS bool
+				if off, okS = substParams(off, f, args); !okS {
+					continue
+				}
+			}
+			x := cr.normLin(off, recv)
+			out = append(out, Fact{L: linAtom("len(z.buf)").add(linConst(2), -1).add(linAtom("z.pos"), -1).add(x, -1)})
+		}
+	}
+	return out
+}
+
+// helperFactsAt: the facts that hold in block hb of helper f called as c, in the caller's terms.
+func helperFactsAt(hb *ssa.BasicBlock, c *ssa.Call, cr *cursorRoles, recv string) []Fact {
+	f := c.Call.StaticCallee()
+	var out []Fact
+	for _, ft := range blockFacts(hb) {
+		if ft.NE {
+			continue
+		}
+		if l, ok := substParams(ft.L, f, c.Call.Args); ok {
+			out = append(out, cr.normFacts([]Fact{{L: l}}, recv)...)
+		}
+	}
+	return append(out, sentinelFacts(guardsAt(hb), cr, recv, f, c.Call.Args)...)
+}
+
+// helperResultSentinels: the facts common to every return of constant k (result ri) of the helper called as c.
+func helperResultSentinels(c *ssa.Call, ri int, k int64, cr *cursorRoles, recv string) []Fact {
+	f := c.Call.StaticCallee()
+	if f == nil || c.Call.IsInvoke() || len(f.Blocks) == 0 || fnPkg(f) == nil || !core.InModule(fnPkg(f)) || f.Signature.Recv() == nil {
+		return nil
+	}
+	var sets [][]Fact
+	for _, b := range f.Blocks {
+		ret, ok := lastInstr(b).(*ssa.Return)
+		if !ok || ri >= len(ret.Results) {
+			continue
+		}
+		kc, isC := ret.Results[ri].(*ssa.Const)
+		if !isC || !ssaIntConst(kc) {
+			return nil
+		}
+		if kc.Int64() != k {
+			continue
+		}
+		sets = append(sets, helperFactsAt(b, c, cr, recv))
+	}
+	if len(sets) == 0 {
+		return nil
+	}
+	var out []Fact
+	for _, ft := range sets[0] {
+		common := !ft.NE
+		for _, other := range sets[1:] {
+			if !entails(other, ft.L) {
+				common = false
+			}
+		}
+		if common {
+			out = append(out, ft)
 		}
 	}
 	return out
@@ -344,7 +483,9 @@ func runPeekRune(r *core.Run) {
 										continue
 									}
 									if l, okS := substParams(linOf(hc.Call.Args[1]), f, x.Call.Args); okS {
-										offs = append(offs, cr.normLin(l, z))
+										// judged under the caller's guards at the call plus the helper's own on the way to the read
+										hfs := append(append([]Fact{}, fs...), helperFactsAt(hb, x, cr, z)...)
+										peekObligation(r, name, m, hc.Pos(), hfs, cr.normLin(l, z), argPos, base, last, &obs)
 									} else {
 										r.Unknown(fmt.Sprintf("%s.%s look-ahead in helper %s", name, m, f.Name()), hc.Pos(), "look-ahead offset inside the helper is not expressible at the call site")
 									}
@@ -378,12 +519,19 @@ func runPeekRune(r *core.Run) {
 						}
 						d := cr.normLin(linOf(x.Val), z).add(base, -1)
 						var amount ssa.Value
+						var steps *ssa.Phi
 						if bo, ok := x.Val.(*ssa.BinOp); ok && bo.Op == token.ADD {
 							for _, o := range []ssa.Value{bo.X, bo.Y} {
 								if _, _, isC := callOfValue(o); isC {
 									amount = o
 								}
+								if ph, isPhi := o.(*ssa.Phi); isPhi {
+									steps = ph
+								}
 							}
+						}
+						if steps != nil && !d.isConst() && phiStepsMoveRune(r, cr, name, z, x.Pos(), steps, base, last, &obs) {
+							continue
 						}
 						moveRuneStep(r, cr, name, z, x.Pos(), fs, d, amount, base, last, &obs)
 					}
@@ -413,6 +561,35 @@ func runPeekRune(r *core.Run) {
 		}
 	}
 	r.Floor("rune look-ahead obligations", obs, 12)
+}
+
+// phiStepsMoveRune: the step is a variable assigned a constant on each path (n := 4; switch { case ...: n = 1 ... };
+// z.pos += n): each constant is judged under the guards of the path that assigns it.
+func phiStepsMoveRune(r *core.Run, cr *cursorRoles, name, z string, pos token.Pos, ph *ssa.Phi, base, last Lin, obs *int) bool {
+	for _, e := range ph.Edges {
+		if k, ok := e.(*ssa.Const); !ok || !ssaIntConst(k) {
+			return false
+		}
+	}
+	for i, e := range ph.Edges {
+		k := e.(*ssa.Const).Int64()
+		if k <= 1 {
+			continue
+		}
+		pred := ph.Block().Preds[i]
+		atoms := append(append([]condAtom{}, guardsAt(pred)...), edgeAtoms(pred, ph.Block(), 0)...)
+		var fs []Fact
+		for _, a := range atoms {
+			fs = append(fs, factsOfAtom(a)...)
+		}
+		fs = cr.normFacts(fs, z)
+		fs = append(fs, sentinelFacts(atoms, cr, z, nil, nil)...)
+		*obs++
+		goal := last.add(base, -1).add(linConst(k), -1)
+		r.Check(entails(fs, goal), fmt.Sprintf("%s.MoveRune step %d", name, k), pos, "",
+			fmt.Sprintf("pos advances by %d under guards %v, which do not imply pos+%d <= len(buf)-1", k, factStrings(fs), k))
+	}
+	return true
 }
 
 // peekObligation: a look-ahead read at offset a (relative to the position) inside PeekRune/MoveRune.
